@@ -1,7 +1,7 @@
 (* Props/C17.v — property theorems only (C17: delimited list / key=value / INI
    text decodes to what was encoded). *)
 From Coq Require Import List NArith ZArith.
-From N0 Require Import Base.PyStr Base.PyVal Codec.Util Codec.Split Codec.SplitProofs Codec.Serialize Codec.SerializeProofs
+From N0 Require Import Base.PyStr Base.PyVal Codec.Util Codec.Split Codec.SplitProofs Codec.Serialize Codec.SerializeProofs Codec.SerializeInjective
   Codec.Ini Codec.IniProofs.
 Import ListNotations.
 
@@ -226,3 +226,28 @@ Theorem C17_ini_nonvacuous :
         ([70], IStr [22; 97; 98; 99; 100]); ([71], IStr [46]); ([72], IStr [45; 32; 53])]%N.
 Proof. exact ini_example. Qed.
 Print Assumptions C17_ini_nonvacuous.
+
+(* ---- unambiguity ----------------------------------------------------------------------- *)
+
+(* a joined list determines its items (items free of delimiter and escape) ... *)
+Theorem C17_join_injective :
+  forall d e (l1 l2 : list pstr),
+  l1 <> [] -> l2 <> [] ->
+  Forall (fun it => ~ In d it) l1 -> Forall (fun it => ~ In d it) l2 ->
+  Forall (fun it => ~ In e it) l1 -> Forall (fun it => ~ In e it) l2 ->
+  join [d] l1 = join [d] l2 -> l1 = l2.
+Proof. exact join_injective. Qed.
+Print Assumptions C17_join_injective.
+
+(* ... and the text of a serialised flat mapping determines the mapping: keys,
+   values and order (same guards as the round trip) *)
+Theorem C17_serialize_injective :
+  forall d eq c1 c2 m1 m2 s,
+  (d < 128)%N -> (eq < 128)%N -> d <> eq -> safe_sep d -> safe_sep eq ->
+  keys_ok d eq m1 -> Forall (fun kv => non_ascii (snd kv) = false) m1 ->
+  keys_ok d eq m2 -> Forall (fun kv => non_ascii (snd kv) = false) m2 ->
+  serialize_dict (dcfg d eq) (Dict c1 (flat m1)) = Ok (Some s) ->
+  serialize_dict (dcfg d eq) (Dict c2 (flat m2)) = Ok (Some s) ->
+  m1 = m2.
+Proof. exact serialize_injective. Qed.
+Print Assumptions C17_serialize_injective.
